@@ -192,6 +192,7 @@ func c15Jobs(tier string) []*SeqJob {
 		jobs = append(jobs, j)
 	}
 	jobs = append(jobs, c15ReporterJobs(tier)...)
+	jobs = append(jobs, c15ClientJobs(tier)...)
 	return jobs
 }
 
